@@ -75,7 +75,11 @@ namespace cnl {
             template<typename Destination, typename Source>
             [[nodiscard]] constexpr auto operator()(Source const& rhs) const
             {
-                return rhs > static_cast<Source>(std::numeric_limits<Destination>::max());
+                // when Source has fewer significand digits than Destination has digits,
+                // max() (all ones) rounds up to a power of two which is itself out of range
+                return rhs > static_cast<Source>(std::numeric_limits<Destination>::max())
+                    || (std::numeric_limits<Source>::digits < std::numeric_limits<Destination>::digits
+                        && rhs == static_cast<Source>(std::numeric_limits<Destination>::max()));
             }
         };
 
